@@ -121,7 +121,7 @@ class Model:
         raise ValueError(pos)
 
 
-OPS = ["assign-attr", "assign-tree", "assign-subdict", "same", "fresh", "files", "append", "rekey-root", "rekey-sub", "move-sub", "adopt-item", "adopt-extend", "attach-used"]
+OPS = ["assign-attr", "assign-tree", "assign-subdict", "same", "fresh", "files", "append", "rekey-root", "rekey-sub", "move-sub", "adopt-item", "adopt-extend", "attach-used", "rotate-root-file"]
 
 
 def histories(depth):
@@ -505,10 +505,12 @@ def run_history(ctx, job, pname, hist):
         failed[0] = True
         ctx.violation(fpb + what, "placement %s, plaintext %s, history %s: %s" % (placement or "none", pname, hist, msg), case, size=len(hist))
 
+    swapped = {}        # after "rotate-root-file": which key a file holds now (the root's and the spare file trade contents)
+
     def keyname_of(path):
         for n in KEYS:
             if realpath(tmp, n) == path:
-                return n
+                return swapped.get(n, n)
         return None
 
     def check_access(log, designated, what):
@@ -583,7 +585,7 @@ def run_history(ctx, job, pname, hist):
             try:
                 with core.audit_opens() as log3:
                     sch3 = build(method, placement, tmp)
-                    built3 = cc.Config(sch3, key_filename=keypath(tmp, model.own["root"]), **parts) if model.own["root"] else sch3(**parts)
+                    built3 = cc.Config(sch3, key_filename=keypath(tmp, swapped.get(model.own["root"], model.own["root"])), **parts) if model.own["root"] else sch3(**parts)
             except Exception as exc:  # noqa
                 bad("ctor-raises|" + _blame(exc), "a new configuration given the rendered sub-trees as constructor keywords (and the same key file) raised: %s" % (exc,))
                 return
@@ -596,14 +598,14 @@ def run_history(ctx, job, pname, hist):
     def _fresh_from_model(m):
         # a new configuration object whose key-file assignment is exactly the model's current one
         sch = build(method, placement, tmp)
-        c = cc.Config(sch, key_filename=keypath(tmp, m.own["root"])) if m.own["root"] else sch()
+        c = cc.Config(sch, key_filename=keypath(tmp, swapped.get(m.own["root"], m.own["root"]))) if m.own["root"] else sch()
         _apply_model_keys(c, m, tmp)
         return c
 
     def _apply_model_keys(c, m, t):
         # the fresh configuration gets the *current* key-file assignment of the model
         if m.own["root"]:
-            c._key_filename = keypath(t, m.own["root"])
+            c._key_filename = keypath(t, swapped.get(m.own["root"], m.own["root"]))      # (the file that holds that key now)
         if m.own["sub"]:
             c.sub._key_filename = keypath(t, m.own["sub"])
         if m.own["deep"]:
@@ -725,7 +727,16 @@ def run_history(ctx, job, pname, hist):
             elif op == "rekey-root":
                 cfg.dumps(fmt)                      # the key files have been used
                 cfg._key_filename = keypath(tmp, "root2")
-                model.own["root"] = "root2"
+                model.own["root"] = swapped.get("root2", "root2")       # (the key that file holds now)
+            elif op == "rotate-root-file":
+                # key rotation: the key file keeps its name, its content is replaced (here: traded with the spare file's)
+                cfg.dumps(fmt)
+                if model.own["root"] == "root" and not swapped:
+                    a, b = realpath(tmp, "root"), realpath(tmp, "root2")
+                    ka, kb = open(a, "rb").read(), open(b, "rb").read()
+                    open(a, "wb").write(kb); open(b, "wb").write(ka)
+                    swapped.update({"root": "root2", "root2": "root"})
+                    model.own["root"] = "root2"          # (the name the model uses for "the key that file holds")
             elif op == "rekey-sub":
                 cfg.dumps(fmt)
                 cfg.sub._key_filename = keypath(tmp, "sub2")
@@ -737,7 +748,7 @@ def run_history(ctx, job, pname, hist):
                 moved = {k: v for k, v in model.secrets.items() if k.startswith("sub.")}
                 model.secrets.clear()
                 model.secrets.update(moved)
-                model.own["root"] = "root2"
+                model.own["root"] = swapped.get("root2", "root2")
                 if CTMODE[0] == "instance":
                     model.own["ct"] = None        # the new root's config-type instance was never given a key file of its own
                 cfg = other
